@@ -65,6 +65,27 @@ func injectFaults(t *kernel.Tape, p *Plan, kinds []int, two bool) []lnode {
 	return chosen
 }
 
+// injectBranchFault makes the condition of one branch (at any nesting depth) fail at its first
+// evaluation.
+func injectBranchFault(t *kernel.Tape, p *Plan) bool {
+	var all []*Branch
+	var walk func(q *Plan)
+	walk = func(q *Plan) {
+		all = append(all, q.Branches...)
+		for _, n := range q.Nodes {
+			if n.Kind == KSub {
+				walk(n.Sub)
+			}
+		}
+	}
+	walk(p)
+	if len(all) == 0 {
+		return false
+	}
+	all[t.Plan(len(all))].FailEval = 1
+	return true
+}
+
 // runC04: one plan, the four paradigms one after the other on the same compiled runnable.
 func runC04(t *kernel.Tape, opt core.Opts) *core.Outcome {
 	o := &core.Outcome{}
@@ -81,6 +102,8 @@ func runC04(t *kernel.Tape, opt core.Opts) *core.Outcome {
 	var faults []lnode
 	if variant > 2 && t.PlanBool(35) {
 		faults = injectFaults(t, p, []int{0, 0, 1, 2}, false)
+	} else if variant > 2 && t.PlanBool(8) {
+		injectBranchFault(t, p) // a branch condition that returns an error
 	}
 	// static output types: some nodes and nested graphs are typed `any` (same values); variant 2
 	// lets such outputs take part in fan-ins (reported separately, known finding)
@@ -533,7 +556,7 @@ func tailOf(s string, n int) string {
 func init() {
 	core.Register(&core.Profile{
 		ID: "C04", Engine: "graphsim", Quick: 1500, Thorough: 40000, ThoroughSeeds: 3, Run: runC04,
-		Rule: "each run draws a plan in any mode (native paradigm subset per node, chunkings incl. empty chunks, pipe or array streams, lazily reading transforms, state handlers in value and stream form, output keys, field mappings, stream branches reading a prefix), optionally one failing node (error, panic, error item mid-stream), calls Invoke, Stream, Collect and Transform in a drawn order on the same compiled object, and one schedule; oracle: every paradigm equals the reference model and the others; failures in all four; 1 in 20 plans allows duplicate-key fan-in, 1 in 20 a mapping from a missing key (reported separately); 2 in 5 plans type some lambda outputs and nested graphs statically as any (runtime type checks on edges and before branches), 1 in 20 lets such an output take part in a fan-in (known finding)",
+		Rule: "each run draws a plan in any mode (native paradigm subset per node, chunkings incl. empty chunks, pipe or array streams, lazily reading transforms, state handlers in value and stream form, output keys, field mappings, stream branches reading a prefix), optionally one failing node (error, panic, error item mid-stream), calls Invoke, Stream, Collect and Transform in a drawn order on the same compiled object, and one schedule; oracle: every paradigm equals the reference model and the others; failures in all four; 1 in 20 plans allows duplicate-key fan-in, 1 in 20 a mapping from a missing key (reported separately); 2 in 5 plans type some lambda outputs and nested graphs statically as any (runtime type checks on edges and before branches), 1 in 20 lets such an output take part in a fan-in (known finding); 1 plan in 20 has a branch condition that returns an error",
 		Real: graphReal, Stub: graphStub,
 		Faults: []string{"node error", "node panic", "error item mid-stream", "chunk arrival interleaving", "producer/consumer order"},
 	})
